@@ -79,7 +79,7 @@ def search(ctx):
 TECHNIQUE = ("Coq proofs over hand-written models of escape / wrapping / colour propagation / interning; kernel computation over the template list "
              "regenerated from render/tikz.py on every run, lifted by a proved soundness lemma; models and templates tied to the code by "
              "differential testing evaluated with vm_compute, with a text-level oracle written from the property")
-LEVEL_TEXT = ("End to end (C15_render_full_balanced): whenever the model's render succeeds on brace-free names, colours, families, coordinates and parameters, every emitted line is an instance of a generated template (proved by induction over the emission functions), every line is brace-balanced, every picture statement ends with ';', the text is definitions, colour definitions, one \\begin{tikzpicture} ... one \\end{tikzpicture}. Machine-checked: every generated statement template, instantiated with brace-balanced hole values, is brace-balanced, never closes below depth 0 "
+LEVEL_TEXT = ("End to end (C15_render_full_balanced): whenever the model's render succeeds on brace-free names, colours, families, coordinates and parameters, the model emits (template, colour, text) triples whose text is BY DEFINITION an instance of a template of the generated Gen/TikzTemplates.v (that the code's output equals the model's is correspondence); proved about them: every line is brace-balanced, every picture statement ends with ';', the text is definitions, colour definitions, one \\begin{tikzpicture} ... one \\end{tikzpicture}. Machine-checked: every generated statement template, instantiated with brace-balanced hole values, is brace-balanced, never closes below depth 0 "
               "and (picture statements) ends with ';'; lines joined by newlines stay balanced; render assembles definitions, colour definitions, then one "
               "tikzpicture; interned colour indexes are below the number of definitions and name the right colour; after propagation a node's colour is that "
               "of its nearest coloured ancestor-or-self (pre-fix loop refuted); escape = character-wise map, injective, adds no brace; labels list the escaped "
